@@ -643,7 +643,7 @@ func (m *mon) mvRand(a *acc, idx int) {
 	kind := kinds[idx%len(kinds)]
 	where := fmt.Sprintf("distmv.%s case %d dim=%d N=%d", kind, idx, dim, N)
 	m.c.LastCase(where)
-	src := m.c.RNG("mv.rand.src", idx)
+	src := m.src("mv.rand.src", idx)
 	sym := sigma.sym()
 	var ch mat.Cholesky
 	ch.Factorize(sym)
@@ -696,7 +696,7 @@ func (m *mon) mvRand(a *acc, idx int) {
 	nu := []float64{0.7, 2.5, 5, 30}[idx%4]
 	whereT := fmt.Sprintf("distmv.StudentsT.Rand case %d dim=%d nu=%g N=%d", idx, dim, nu, N)
 	m.c.LastCase(whereT)
-	st, _ := distmv.NewStudentsT(mu, sym, nu, m.c.RNG("mv.rand.src.t", idx))
+	st, _ := distmv.NewStudentsT(mu, sym, nu, m.src("mv.rand.src.t", idx))
 	rows = draw(st.Rand)
 	a.eval("distmv.StudentsT.Rand|rand", N)
 	for di, w := range dirs() {
@@ -715,7 +715,7 @@ func (m *mon) mvRand(a *acc, idx int) {
 		b[i] = r1.Interval{Min: lo, Max: lo + math.Exp(r.Uniform(-3, 3))}
 	}
 	whereU := fmt.Sprintf("distmv.Uniform.Rand case %d dim=%d N=%d", idx, dim, N)
-	un := distmv.NewUniform(b, m.c.RNG("mv.rand.src.u", idx))
+	un := distmv.NewUniform(b, m.src("mv.rand.src.u", idx))
 	rows = draw(un.Rand)
 	a.eval("distmv.Uniform.Rand|rand", N)
 	inside := true
@@ -773,7 +773,7 @@ func (m *mon) mvRand(a *acc, idx int) {
 	}
 	whereD := fmt.Sprintf("distmv.Dirichlet.Rand case %d alpha=%v N=%d", idx, alpha, N)
 	m.c.LastCase(whereD)
-	dir := distmv.NewDirichlet(alpha, m.c.RNG("mv.rand.src.d", idx))
+	dir := distmv.NewDirichlet(alpha, m.src("mv.rand.src.d", idx))
 	rows = draw(dir.Rand)
 	a.eval("distmv.Dirichlet.Rand|rand", N)
 	for _, x := range rows {
